@@ -7,54 +7,133 @@
    returns data that the inverse transform accepts, and it never reads or writes outside the memory of its input and
    output objects.
 
-   PROVED HERE (hence the suffix _partial): the Base64 instance of every clause, at full strength, about
-   Model/Transform.v (the model of the repaired transform.c): all byte strings, all splits of the encoder's input AND
-   all splits of the decoder's input, through the format check of dispatch_data_create_with_transform.
-   MISSING: the same theorems for Base32/Base32Hex (same proof shape: 8 digits per 5 bytes, pad counts 1/3/4/6) and for
-   UTF-8 <-> UTF-16LE/BE (read-ahead/skip invariant).  Those parts of the model are covered by the correspondence
-   run only (lib/props/c20.py): exact agreement with the library, library-side round trips, AddressSanitizer. *)
+   All theorems are about Model/Transform.v, the model of the repaired src/transform.c; its six tables, the three decode
+   table sizes, BUFFER_MALLOC_MAX and _dispatch_transform_utf8_length are the generated Gen_transform.  A data object is
+   ANY list of non-empty regions; `flat` is the concatenation.  Proved at full strength: the three Base round trips and
+   the UTF round trip for every input and every split on BOTH sides; split independence; for arbitrary input the
+   decoders (Base and UTF, both directions) compute a function of the concatenation only and never reach the OOB
+   outcome.  Hypotheses are the honest ones: sizes below 2^60 and, for UTF, the size guard of transform.c:158.
+   Still `_partial`: "what a UTF transform returns for ARBITRARY (malformed) input is accepted by the inverse"
+   (proved for the Base formats only). *)
 From Coq Require Import ZArith List Bool Lia.
-From Verif Require Import Word Transform Transform_proofs.
+From Verif Require Import Word Gen_transform Transform Transform_proofs Transform32_proofs TransformUtf_proofs.
 Import ListNotations.
 Local Open Scope Z_scope.
 
-(* every byte string (wf_data: no empty region, bytes, size < 2^60), every split of it (d is any region list), and
-   every split d' of the encoded text: encode never fails, its result is the RFC 4648 text of the concatenation
-   (so it does not depend on the split), and decoding any split of that text gives back the bytes *)
-Theorem C20_base64_roundtrip_all_splits_partial : forall d, wf_data d ->
+(* ---------------------------------------------------------------- the generated tables *)
+
+(* every digit is encoded to a character that is no white space, lies inside the decode table as sized by the code,
+   and decodes to the digit (so encoding is injective and decode o encode = id on digits); bounds in the statement *)
+Theorem C20_tables_base64 : forall k, 0 <= k < 64 ->
+  is_ws (e64 k) = false /\ (base64_decode_table_size <=? e64 k) = false /\ rd base64_decode_table (e64 k) = Some k.
+Proof. exact digit64. Qed.
+Print Assumptions C20_tables_base64.
+Theorem C20_tables_base32 : tables_ok base32_encode_table base32_decode_table base32_decode_table_size.
+Proof. exact tables32_ok. Qed.
+Print Assumptions C20_tables_base32.
+Theorem C20_tables_base32hex : tables_ok base32hex_encode_table base32hex_decode_table base32hex_decode_table_size.
+Proof. exact tables32hex_ok. Qed.
+Print Assumptions C20_tables_base32hex.
+
+(* ---------------------------------------------------------------- Base64 / Base32 / Base32Hex round trips *)
+
+(* every byte string (wf_data: no empty region, bytes, size < 2^60), every split d of it, every split d' of the encoded
+   text: encode never fails, yields the RFC 4648 text of the concatenation (hence independent of the split), and
+   decoding any split of that text gives back the bytes *)
+Theorem C20_base64_roundtrip_all_splits : forall d, wf_data d ->
   exists e, transform d F_NONE F_BASE64 = Ok e /\ flat e = b64_spec (flat d) /\
     forall d', flat d' = flat e -> dsize d' < 2 ^ 60 ->
       flat_res (transform d' F_BASE64 F_NONE) = Ok (flat d).
 Proof. exact base64_roundtrip_all_splits. Qed.
-Print Assumptions C20_base64_roundtrip_all_splits_partial.
+Print Assumptions C20_base64_roundtrip_all_splits.
 
-(* arbitrary input to the Base64 decoder, arbitrary split: the answer (NULL or bytes) is a function of the
-   concatenation only; no access outside the buffers (the OOB outcome of the model is unreachable); whatever is
-   returned is accepted by the inverse transform *)
-Theorem C20_base64_decode_total_partial : forall d, wf_data d ->
+Theorem C20_base32_roundtrip_all_splits : forall d, wf_data d ->
+  exists e, transform d F_NONE F_BASE32 = Ok e /\ flat e = b32_spec base32_encode_table (flat d) /\
+    forall d', flat d' = flat e -> dsize d' < 2 ^ 60 ->
+      flat_res (transform d' F_BASE32 F_NONE) = Ok (flat d).
+Proof. exact base32_roundtrip_all_splits. Qed.
+Print Assumptions C20_base32_roundtrip_all_splits.
+
+Theorem C20_base32hex_roundtrip_all_splits : forall d, wf_data d ->
+  exists e, transform d F_NONE F_BASE32HEX = Ok e /\ flat e = b32_spec base32hex_encode_table (flat d) /\
+    forall d', flat d' = flat e -> dsize d' < 2 ^ 60 ->
+      flat_res (transform d' F_BASE32HEX F_NONE) = Ok (flat d).
+Proof. exact base32hex_roundtrip_all_splits. Qed.
+Print Assumptions C20_base32hex_roundtrip_all_splits.
+
+(* ---------------------------------------------------------------- Base decoders on arbitrary input *)
+
+(* arbitrary input, arbitrary split: the answer (NULL or bytes) is a function of the concatenation only; the OOB
+   outcome is unreachable; whatever is returned is accepted by the inverse transform *)
+Theorem C20_base64_decode_total : forall d, wf_data d ->
   flat_res (transform d F_BASE64 F_NONE) = (if dsize d =? 0 then Ok (flat d) else dec64_flat (flat d)) /\
   (forall site, transform d F_BASE64 F_NONE <> OOB site) /\
   (forall t, transform d F_BASE64 F_NONE = Ok t -> Forall (fun r => r <> []) t -> dsize t < 2 ^ 60 ->
              exists e, transform t F_NONE F_BASE64 = Ok e).
 Proof. exact base64_decode_total. Qed.
-Print Assumptions C20_base64_decode_total_partial.
+Print Assumptions C20_base64_decode_total.
 
-(* split independence and memory safety of the encoder proper (every look-back map, table read and write of the
-   model succeeds: the result is Ok) *)
-Theorem C20_base64_encode_split_independent_partial : forall d,
-  Forall (fun r => r <> []) d -> dsize d < 2 ^ 62 -> to_base64 d = Ok (data_create (b64_spec (flat d))).
-Proof. exact to_base64_flat. Qed.
-Print Assumptions C20_base64_encode_split_independent_partial.
+Theorem C20_base32_decode_total : forall d, wf_data d ->
+  flat_res (transform d F_BASE32 F_NONE) =
+    (if dsize d =? 0 then Ok (flat d) else dec32_flat base32_decode_table base32_decode_table_size (flat d)) /\
+  (forall site, transform d F_BASE32 F_NONE <> OOB site) /\
+  (forall t, transform d F_BASE32 F_NONE = Ok t -> Forall (fun r => r <> []) t -> dsize t < 2 ^ 60 ->
+             exists e, transform t F_NONE F_BASE32 = Ok e).
+Proof. exact base32_decode_total. Qed.
+Print Assumptions C20_base32_decode_total.
 
-(* the flat round trip for every byte string *)
-Theorem C20_base64_flat_roundtrip_partial : forall s, bytes s -> dec64_flat (b64_spec s) = Ok s.
-Proof. exact roundtrip64_flat. Qed.
-Print Assumptions C20_base64_flat_roundtrip_partial.
+Theorem C20_base32hex_decode_total : forall d, wf_data d ->
+  flat_res (transform d F_BASE32HEX F_NONE) =
+    (if dsize d =? 0 then Ok (flat d) else dec32_flat base32hex_decode_table base32hex_decode_table_size (flat d)) /\
+  (forall site, transform d F_BASE32HEX F_NONE <> OOB site) /\
+  (forall t, transform d F_BASE32HEX F_NONE = Ok t -> Forall (fun r => r <> []) t -> dsize t < 2 ^ 60 ->
+             exists e, transform t F_NONE F_BASE32HEX = Ok e).
+Proof. exact base32hex_decode_total. Qed.
+Print Assumptions C20_base32hex_decode_total.
 
-(* hypotheses are satisfiable on a non-trivial state: "Man" split 1|2 encodes to "TWFu"; "TWFu" split 1|2|1 decodes
-   to "Man"; and the repaired defects behave: "QQ" "=" "=" decodes to "A", "=" alone to nothing *)
+(* ---------------------------------------------------------------- UTF-8 <-> UTF-16 *)
+
+(* every sequence cps of Unicode scalar values, every split d of its UTF-8 encoding, either byte order, every split d'
+   of the UTF-16 text produced.  BOM handling, exactly: the encoder writes its own BOM and drops ONE leading U+FEFF of
+   the text; the decoder drops the BOM it finds; _dispatch_transform_to_utf8_without_bom drops one more leading U+FEFF
+   if the text had two.  wf_utf = no empty region, size < 2^60, and the explicit size guard of transform.c:158
+   (2*|region|+2 <= BUFFER_MALLOC_MAX for UTF-8 input, |region|+6 <= BUFFER_MALLOC_MAX for UTF-16 input). *)
+Theorem C20_utf_roundtrip_all_splits : forall le cps d,
+  Forall scalar cps -> flat d = utf8_of cps -> wf_utf d ->
+  exists e, transform d F_UTF8 (fmt16 le) = Ok e /\
+            flat e = match cps with [] => [] | _ => bom16 le ++ utf16_of le (strip1 cps) end /\
+    forall d', flat d' = flat e -> wf_utf d' ->
+      flat_res (transform d' (fmt16 le) F_UTF8) = Ok (utf8_of (strip1 (strip1 cps))).
+Proof. exact utf_roundtrip_all_splits. Qed.
+Print Assumptions C20_utf_roundtrip_all_splits.
+
+(* arbitrary bytes, arbitrary split: the result is a function of the concatenation (to16_flat / from16_flat are folds
+   over the flat string), NULL exactly when that fold rejects, and the OOB outcome is unreachable *)
+Theorem C20_utf8_to_utf16_total : forall le d, wf_utf d ->
+  flat_res (transform d F_UTF8 (fmt16 le)) =
+    (if dsize d =? 0 then Ok (flat d) else match to16_flat le (flat d) with Some x => Ok x | None => Null end) /\
+  (forall site, transform d F_UTF8 (fmt16 le) <> OOB site).
+Proof. exact utf8_to_utf16_total. Qed.
+Print Assumptions C20_utf8_to_utf16_total.
+
+Theorem C20_utf16_to_utf8_total : forall le d, wf_utf d ->
+  flat_res (transform d (fmt16 le) F_UTF8) =
+    (if dsize d =? 0 then Ok (flat d)
+     else match from16_flat le (flat d) with Some x => Ok (strip_bom8 x) | None => Null end) /\
+  (forall site, transform d (fmt16 le) F_UTF8 <> OOB site).
+Proof. exact utf16_to_utf8_total. Qed.
+Print Assumptions C20_utf16_to_utf8_total.
+
+(* UTF_ANY as input format: decided by the first two bytes *)
+Theorem C20_utf_any_detect : forall d out,
+  transform d F_UTF_ANY out = match detect_flat (flat d) with Some f => transform d f out | None => Null end.
+Proof. exact utf_any_detect. Qed.
+Print Assumptions C20_utf_any_detect.
+
+(* hypotheses are satisfiable on non-trivial states, and the repaired defects behave *)
 Example C20_nonvacuous :
   wf_data [[77]; [97; 110]] /\
+  wf_utf [[195]; [169; 226]; [130; 172]] /\ Forall scalar [233; 8364] /\ flat [[195]; [169; 226]; [130; 172]] = utf8_of [233; 8364] /\
   show (transform [[77]; [97; 110]] F_NONE F_BASE64) = [0; 84; 87; 70; 117] /\
   show (transform [[84]; [87; 70]; [117]] F_BASE64 F_NONE) = [0; 77; 97; 110] /\
   show (transform [[81; 81]; [61]; [61]] F_BASE64 F_NONE) = [0; 65] /\
@@ -69,5 +148,13 @@ Proof.
     - repeat (apply Forall_cons; [discriminate|]). apply Forall_nil.
     - unfold bytes. cbn [flat concat app]. repeat (apply Forall_cons; [unfold byte; lia|]). apply Forall_nil.
     - vm_compute. reflexivity. }
+  split.
+  { unfold wf_utf. split; [|split; [|split]].
+    - repeat (apply Forall_cons; [discriminate|]). apply Forall_nil.
+    - vm_compute. reflexivity.
+    - repeat (apply Forall_cons; [unfold guard16; vm_compute; discriminate|]). apply Forall_nil.
+    - repeat (apply Forall_cons; [unfold guard8; vm_compute; discriminate|]). apply Forall_nil. }
+  split.
+  { repeat (apply Forall_cons; [reflexivity|]). apply Forall_nil. }
   repeat split; vm_compute; reflexivity.
 Qed.
